@@ -41,7 +41,7 @@ def _ddmin_list(eng, plan, prop, key, oracle, budget):
     return plan
 
 
-def shrink(eng, plan, prop, oracle, max_exec=400, max_wall=120):
+def shrink(eng, plan, prop, oracle, max_exec=400, max_wall=45):
     budget = {"left": max_exec, "deadline": time.time() + max_wall}
     orig = copy.deepcopy(plan)
     for rounds in range(3):
